@@ -49,6 +49,8 @@ def pregen(check):
 
 
 TIE_MODULE = T + "Ties"
+TIEQ_MODULE = T + "TiesQ"   # query-side ties (Node, Edge, From); theorems live in namespace GeomV.C19.Ties
+TIEQ_THEOREMS = ["tie_Node", "tie_Edge", "forMapAux_setIdx", "tie_From", "tie_From_mem"]
 TIE_THEOREMS = ["tie_NewNetwork", "tie_Has", "tie_newNodeID", "tie_newNode", "tie_addNode", "tie_ensureNode", "tie_AddLink",
                 "tie_Weight", "tie_costHeuristic", "tie_buildFrom", "tie_build"]
 
@@ -62,7 +64,7 @@ def regen(check):
     cfg = check.cfg
 
     def drop(why):
-        cfg["lean_modules"] = [m for m in cfg["lean_modules"] if m != TIE_MODULE]
+        cfg["lean_modules"] = [m for m in cfg["lean_modules"] if m not in (TIE_MODULE, TIEQ_MODULE)]
         cfg["theorems"] = [t for t in cfg["theorems"] if not t.startswith(TIE_MODULE + ".")]
         check.broken.append(why)
     exe = os.path.join(check.rundir, "c19extract")
@@ -90,16 +92,65 @@ def regen(check):
     if b.returncode != 0:
         errs = re.findall(r"error: .*", b.stdout)[:3]
         drop("T1 tie broken: route.go as regenerated no longer denotes the model (GeomV.C19.Ties does not build): " + " | ".join(errs))
+        return
+    with vcheck.Lock("lake"):
+        b = subprocess.run(["lake", "build", TIEQ_MODULE], cwd=vcheck.LEAN, stdout=subprocess.PIPE, stderr=subprocess.STDOUT, text=True)
+    if b.returncode != 0:
+        errs = re.findall(r"error: .*", b.stdout)[:3]
+        cfg["lean_modules"] = [m for m in cfg["lean_modules"] if m != TIEQ_MODULE]
+        cfg["theorems"] = [t for t in cfg["theorems"] if t.split(".")[-1] not in TIEQ_THEOREMS]
+        check.broken.append("T1 tie broken: Node/Edge/From of route.go as regenerated no longer denote the model (GeomV.C19.TiesQ does not build): " + " | ".join(errs))
+
+
+FRAME_MODULE = T + "Frame"
+FRAME_THEOREMS = ["tie_Frame", "C19_queries_frame", "C19_queries_schedule"]
+
+
+def regen_frame(check):
+    """frame tie (concurrency clause): regenerate lean/GeomV/C19/GenFrame.lean (go/ast: writes to memory a ShortestRoute call
+    does not own, on the query path of package route and of index/rtree's NearestNeighbor; package-level variables; calls
+    leaving the packages) from the tree under test and build Frame.lean, whose theorem tie_Frame compares the lists with the
+    model's by `decide`.  A write on the query path = broken tie (reported with the offending statements)."""
+    cfg = check.cfg
+
+    def drop(why):
+        cfg["lean_modules"] = [m for m in cfg["lean_modules"] if m != FRAME_MODULE]
+        cfg["theorems"] = [t for t in cfg["theorems"] if not t.startswith(FRAME_MODULE + ".")]
+        check.broken.append(why)
+    exe = os.path.join(check.rundir, "c19frame")
+    with vcheck.Lock("go"):
+        b = subprocess.run(["go", "build", "-o", exe, "./cmd/c19/frame"], cwd=vcheck.HARNESS, env=vcheck.GOENV,
+                           stdout=subprocess.PIPE, stderr=subprocess.STDOUT, text=True)
+    if b.returncode != 0:
+        drop("frame tie: the extractor does not build: " + b.stdout.strip()[-300:])
+        return
+    p = subprocess.run([exe, "--repo", vcheck.REPO], stdout=subprocess.PIPE, stderr=subprocess.PIPE, text=True)
+    if p.returncode != 0 or not p.stdout.startswith("/-!"):
+        drop("frame tie: extractor failed: " + p.stderr.strip()[-300:])
+        return
+    gen = os.path.join(vcheck.LEAN, "GeomV", "C19", "GenFrame.lean")
+    old = open(gen).read() if os.path.exists(gen) else ""
+    if old != p.stdout:
+        with open(gen + ".tmp%d" % os.getpid(), "w") as f:
+            f.write(p.stdout)
+        os.replace(gen + ".tmp%d" % os.getpid(), gen)
+    with vcheck.Lock("lake"):
+        b = subprocess.run(["lake", "build", FRAME_MODULE], cwd=vcheck.LEAN, stdout=subprocess.PIPE, stderr=subprocess.STDOUT, text=True)
+    if b.returncode != 0:
+        ws = re.findall(r"def (\w+_writes) : List \(String × List String\) :=\n  (\[.*?\])\n\n", p.stdout, re.S)
+        drop("frame tie broken (GeomV.C19.Frame.tie_Frame does not build): the query path writes memory it does not own, or its "
+             "call/variable lists changed: " + " ; ".join("%s = %s" % (n, " ".join(v.split())[:300]) for n, v in ws))
 
 
 def pregen_all(check):
     pregen(check)
     regen(check)
+    regen_frame(check)
 
 
 CFG = {
     "id": "C19",
-    "lean_modules": ["GeomV.C19.Heap", "GeomV.C19.Ident", "GeomV.C19.IdentGen", "GeomV.C19.Nearest", "GeomV.C19.Proofs", TIE_MODULE],
+    "lean_modules": ["GeomV.C19.Heap", "GeomV.C19.Ident", "GeomV.C19.IdentGen", "GeomV.C19.Nearest", "GeomV.C19.NearestSort", "GeomV.C19.Proofs", TIE_MODULE, TIEQ_MODULE, FRAME_MODULE],
     "lean_dirs": ["C19"],
     "exe": "geomv_c19",
     "go_cmd": "c19",
@@ -112,8 +163,11 @@ CFG = {
                                  "C19_ident_order_dependent", "C19_ident_single_candidate", "C19_nearest_meaning",
                                  # wave 2: the R-tree parameter replaced by C11/C12's model + theorems (Nearest.lean)
                                  "rtreeOf_ok", "C19_nearest_rtree_nofault", "C19_nearest_rtree_min", "C19_nearest_rtree_none", "C19_nearest_rtree_unguarded",
-                                 "C19_geo_rtree_contract", "C19_ident_build_rtree"]]
-                + [TIE_MODULE + "." + n for n in TIE_THEOREMS],
+                                 "C19_geo_rtree_contract", "C19_ident_build_rtree",
+                                 # wave 3: C12.OrderOK discharged (sort.Sort = any program of Swap calls; NearestSort.lean)
+                                 "C19_nearest_rtree_sort", "C19_geo_rtree_contract_sort", "C19_ident_build_rtree_sort", "C19_nearest_rtree_unguarded_sort"]]
+                + [TIE_MODULE + "." + n for n in TIE_THEOREMS + TIEQ_THEOREMS]
+                + [FRAME_MODULE + "." + n for n in FRAME_THEOREMS],
     "trusted_base": [
         "Lean 4.33.0 kernel; axioms of every theorem printed by #print axioms must be within {propext, Classical.choice, Quot.sound}",
         "model lean/GeomV/C19/Model.lean is tied to /repo/route/route.go and to gonum v0.9.3 graph/path.AStar by the correspondence run on every check "
